@@ -269,6 +269,26 @@ example : NoStepOverflow .u8 250 253 2 ∧ ¬ NoStepOverflow .u8 250 255 3 := by
 example : loop (emit .int .i16 (-7)) (-32760) 5 (-32750) = some [-32750, -32757]
     ∧ NoStepOverflow .i16 (-32750) (-32760) (-7) ∧ ¬ NoStepOverflow .i16 (-32750) (-32768) (-7) := by decide
 
+/-- the user-visible loop variable after a loop that ran at least once is the one Python leaves behind … -/
+theorem loopVar_eq_of_nonempty (st et : RTy) (step : Int) (hs : step ≠ 0) (hok : StepLitOk st et step = true)
+    (start stop : Int) (fuel : Nat) (hf : rangeLen start stop step < fuel)
+    (hno : NoStepOverflow (indexType st et) start stop step) (hne : pyRange start stop step ≠ [])
+    (before : Option Int) :
+    varAfter (emit st et step) stop fuel start = pyVarAfter start stop step before := by
+  unfold varAfter pyVarAfter
+  rw [forRange_visits_partial st et step hs hok _ start stop fuel rfl hf hno]
+  cases h : pyRange start stop step with
+  | nil => exact absurd h hne
+  | cons v vs =>
+    simp only [Option.map_some, List.getLast?_cons, Option.some.injEq]
+    rw [List.getLastD_eq_getLast?, List.getLast?_cons]
+    simp
+
+/-- … but not after an empty one (finding C05-N5): `i = -1; for i in range(0): pass` leaves `i = -1` under
+    CPython; `ForRange.init` has already stored the start value `0` into it. -/
+theorem not_loopVar_preserved :
+    varAfter (emit .short .int 1) 0 3 0 = some 0 ∧ pyVarAfter 0 0 1 (some (-1)) = some (-1) := by decide
+
 /-- `pyRange` is CPython's item formula `start + i * step` for `i < len` -/
 theorem pyRange_items (start stop step : Int) :
     pyRange start stop step
